@@ -170,12 +170,15 @@ def evidence(agg, tier, seed, wall, batches):
         "distinct_nontrivial": len(agg["nontrivial"]),
         "rule": "one evaluation = one simulated history executed in a forked world. Plan styles (seed-chosen): focused chains 27%, "
                 "covering walk of every operation of one kind 20%, repeat-op / query thrash 13%, cursor duel 6%, inheritance probe "
-                "(all argument-less questions on X, up to 8 derivations, all questions on each) 10%, memo thrash on a CDS/transcript 7%, "
-                "mixed 2-4 interleaved sessions 17%; "
-                "echo steps (same question again) and lazily consumed iterator answers (cursor open/resume/drain) are woven in. "
+                "(all argument-less questions on X, up to 10 derivations, the stateful questions first on each) 12%, memo thrash on a CDS/transcript 8%, "
+                "mixed 2-4 interleaved sessions 14%; on top of the history budget: spotlight sessions on roots with unusual book-keeping (cut by their "
+                "chunk, overlapping CDS blocks, frameshift transcripts), table sessions on roots with a planted ORF, order twins / tie twins / spelling twins; "
+                "echo steps (same question again) and lazily consumed iterator answers (cursor open/resume/drain) are woven in; a flood step creates "
+                "distinct Parents AND distinct IUPAC codons. "
                 "Every call's answer - or the slice of an iterator answer taken in that step - is compared with the same expression "
                 "evaluated alone in a pristine fork (I1); operands' structural snapshot and the caller's argument values before/after "
-                "(I2, operand changes confirmed observationally); end-state observation of every root (I3). distinct = distinct sha256 of (object recipes, step list); non-trivial = "
+                "(I2, operand changes confirmed observationally); end-state observation of every root (I3); one third of the questions asked of derived "
+                "objects are also asked of a twin rebuilt by value in a process that never ran the derivation (I5). distinct = distinct sha256 of (object recipes, step list); non-trivial = "
                 ">=5 compared answers AND at least one fault fired (flood that evicted, gc, foreign build) or an object "
                 "interrogated by >=2 sessions.",
         "samples": sample_plans(seed),
